@@ -17,8 +17,8 @@ package kgo
 // records; oracle: an offset leaves in at most one sent request with a final
 // type.
 //
-// The summary goes to $C12_OUT as JSON; checks/c12/agg merges it into the
-// evidence of part N.
+// The summary goes to $C12Q_OUT as JSON; the engine-N binary (checks/c12)
+// merges it into the evidence with nrun.MergeSummary.
 
 import (
 	"encoding/json"
@@ -872,6 +872,7 @@ func c12RunQ2All(maxOps, nRecs, rounds int, agg *c12Agg) {
 	run := func() {
 		rs, f := h.runQ2(ops, rounds, sched)
 		l.evals++
+		l.counters["q2_steps"] += int64(len(sched) + 3)
 		hh := fnv.New64a()
 		for _, rd := range rs {
 			hh.Write([]byte{0xfe})
@@ -942,17 +943,26 @@ func c12RunQ2All(maxOps, nRecs, rounds int, agg *c12Agg) {
 
 // ---------------------------------------------------------------------------
 
+// c12Summary is what nrun.MergeSummary reads (Execs, Points, Steps, Distinct,
+// Harnesses, Viol, NotExhaustive) plus Tier / Samples / Coverage, which
+// checks/c12/c12_test.go adds to the evidence itself.
 type c12Summary struct {
-	Tier        string           `json:"tier"`
-	Evaluations int64            `json:"q_evaluations"`
-	Distinct    int64            `json:"q_distinct"`
-	Capped      bool             `json:"q_distinct_capped"`
-	Counters    map[string]int64 `json:"counters"`
-	Spaces      []c12Space       `json:"spaces"`
-	Q2          map[string]any   `json:"q2"`
-	Samples     []any            `json:"samples"`
-	Violations  []*c12Viol       `json:"violations"`
-	WallS       float64          `json:"wall_s"`
+	Tier          string
+	Execs         int64
+	Points        int64
+	Steps         int64
+	Distinct      int
+	Harnesses     map[string]any
+	Viol          []c12SumViol
+	NotExhaustive []string
+	Samples       []any
+	Coverage      map[string]any
+}
+
+type c12SumViol struct {
+	Key      string
+	What     string
+	Artefact any
 }
 
 func TestVerifC12(t *testing.T) {
@@ -960,9 +970,9 @@ func TestVerifC12(t *testing.T) {
 		c12Replay(rp)
 		return
 	}
-	out := os.Getenv("C12_OUT")
+	out := os.Getenv("C12Q_OUT")
 	if out == "" {
-		t.Skip("C12_OUT not set")
+		t.Skip("C12Q_OUT not set")
 	}
 	start := time.Now()
 	thorough := os.Getenv("VERIF_TIER") == "thorough"
@@ -1011,19 +1021,35 @@ func TestVerifC12(t *testing.T) {
 	c12RunQ2All(q2Ops, 2, q2Rounds, agg)
 	fmt.Printf("  C12 Q2: %d merges in %.1fs\n", agg.counters["q2_evaluations"], time.Since(t0).Seconds())
 
-	sum := c12Summary{Tier: os.Getenv("VERIF_TIER"), Evaluations: qEvals, Distinct: qDistinct, Capped: agg.capped,
-		Counters: agg.counters, Spaces: spaces, Samples: agg.samples, WallS: time.Since(start).Seconds(),
-		Q2: map[string]any{"max_ack_calls": q2Ops, "records": 2, "sender_rounds_interleaved": q2Rounds,
-			"evaluations": agg.counters["q2_evaluations"], "distinct_request_histories": agg.counters["q2_distinct_request_histories"]}}
+	q2Evals := agg.counters["q2_evaluations"]
+	q2Steps := agg.counters["q2_steps"]
+	q2Distinct := agg.counters["q2_distinct_request_histories"]
 	delete(agg.counters, "evaluations")
+	tier := os.Getenv("VERIF_TIER")
+	if tier != "thorough" {
+		tier = "quick"
+	}
+	sum := c12Summary{Tier: tier, Execs: qEvals + q2Evals, Points: q2Steps, Steps: qEvals + q2Steps,
+		Distinct: int(qDistinct + q2Distinct), Samples: agg.samples,
+		Harnesses: map[string]any{
+			"Q":  map[string]any{"evaluations": qEvals, "distinct_wire_outputs": qDistinct, "spaces": spaces, "bound_completed": "every space enumerated completely"},
+			"Q2": map[string]any{"evaluations": q2Evals, "steps": q2Steps, "distinct_request_histories": q2Distinct, "max_ack_calls": q2Ops, "records": 2, "sender_rounds_interleaved": q2Rounds},
+		},
+		Coverage: map[string]any{"q_evaluations": qEvals, "q_distinct": qDistinct, "q_distinct_capped": agg.capped, "q_spaces": spaces, "q_counters": agg.counters,
+			"q2_evaluations": q2Evals, "q2_distinct": q2Distinct, "q2_max_ack_calls": q2Ops, "q2_sender_rounds": q2Rounds, "q_wall_s": time.Since(start).Seconds()},
+	}
+	if agg.capped {
+		sum.NotExhaustive = append(sum.NotExhaustive, "part Q: the set of distinct wire outputs was capped (the enumeration itself is complete)")
+	}
 	keys := make([]string, 0, len(agg.viol))
 	for k := range agg.viol {
 		keys = append(keys, k)
 	}
 	sort.Strings(keys)
 	for _, k := range keys {
-		sum.Violations = append(sum.Violations, agg.viol[k])
-		fmt.Printf("  C12 Q finding %s x%d: %s\n", k, agg.viol[k].Count, agg.viol[k].What)
+		v := agg.viol[k]
+		sum.Viol = append(sum.Viol, c12SumViol{Key: v.Key, What: fmt.Sprintf("%s (%d cases of the enumeration; the artefact is the smallest)", v.What, v.Count), Artefact: v.Artefact})
+		fmt.Printf("  C12 Q finding %s x%d: %s\n", k, v.Count, v.What)
 	}
 	b, _ := json.MarshalIndent(sum, "", " ")
 	if err := os.WriteFile(out, b, 0o644); err != nil {
